@@ -931,7 +931,8 @@ fn c11_known_order_defect(h: &Hist, edits: &[Value]) -> bool {
 }
 fn c11_run(func: &str, replay: Option<Value>, seed: u64) -> Value {
     let name = if func.is_empty() { "MutableRepo::rebase_descendants" } else { func };
-    let known = func.contains("order_commits_for_rebase") || func.contains("known");
+    let known = true; // order_commits_for_rebase defect: fixed in /repo ("fix: repo: order commits for rebase ..."), searched by default so a regression is reported
+    let _ = func;
     if let Some(inp) = replay {
         let Some(h) = Hist::from_json(&inp) else { return none("replay input is not a valid C11 history") };
         let marks: Vec<usize> = inp.get("bookmarks").and_then(|x| serde_json::from_value(x.clone()).ok()).unwrap_or_default();
